@@ -93,6 +93,9 @@ type Env struct {
 	Stabilized bool
 	frozen     atomic.Bool
 	stepA      atomic.Uint64 // mirror of Step for task goroutines (free mode)
+	// scheduler steps taken without any advance of the fake clock: current
+	// count and maximum over the run (a hot loop shows as a huge instant)
+	instantSteps, MaxInstantSteps int
 	frozenCh   chan struct{} // closed at teardown: every wait of the simulated network ends
 }
 
@@ -177,6 +180,9 @@ func (e *Env) Loop(done func() bool) string {
 			}
 			d := e.Now() - before
 			e.mu.Lock()
+			if d > 0 {
+				e.instantSteps = 0
+			}
 			e.Stats.Advance++
 			e.Stats.FakeNS += int64(d)
 			if early {
@@ -215,6 +221,10 @@ func (e *Env) step(done func() bool, idleFor *time.Duration) (reason string, sle
 	e.Step++
 	e.stepA.Store(e.Step)
 	e.Stats.Steps++
+	e.instantSteps++
+	if e.instantSteps > e.MaxInstantSteps {
+		e.MaxInstantSteps = e.instantSteps
+	}
 	simrt.SetStep(e.Step)
 	if e.OnStep != nil {
 		e.OnStep()
